@@ -290,7 +290,12 @@ def main() -> int:
     from ..families import f_naming
 
     name_jobs = [(c, p) for c in f_shape_core() + [x for x in f_naming() if "prefix" not in x.tags] if "noc" not in c.tags for p in ("", "my_lib", "Sh")]
-    parts = [("c-name-prefix-invariance", work_prefix, jobs), ("api-name-templates", work_templates, [0]), ("documented-names", work_names, name_jobs)]
+    from . import c10
+
+    # names must also AGREE across files: the module / qualifier a generated file uses for an imported schema is the one
+    # that schema's own output defines (observed by importing and instantiating the generated Python)
+    imp_cases = [c for c in f_shape_core() + f_naming() if "import" in c.tags]
+    parts = [("c-name-prefix-invariance", work_prefix, jobs), ("api-name-templates", work_templates, [0]), ("documented-names", work_names, name_jobs), ("names-agree-across-files", c10.work_pyimport, imp_cases)]
     meta = {
         "functions_encoded": cenc.C_FILES + ["compiler/bitproto/renderer/impls/go/formatter.py", "compiler/bitproto/renderer/impls/py/formatter.py"],
         "bounds": f"{len(bases)} structural schemas x prefixes `pre`, `my_lib` x clang IR -O0/-O2 (x86-64); all values; name templates: message names <= 12, file stems <= 8 characters",
